@@ -134,6 +134,49 @@ theorem VStart.of_good {a : Abs} (hG : VGood a) (hp : a.s.streamState = .process
 theorem noflush_of_processing {a b : Abs} (h : a.s.streamState = .processing) : ¬ FlushStep a b := by
   intro hf; rw [hf.1] at h; cases h
 
+/-- the payload-encoder request the ring-free machine issues in configuration `a` (none unless its
+next step is `encode_data`): a function of the positions and of `available_in == 0 && op == …` only -/
+def vreq (op : Nat) (a : Abs) : List Req :=
+  if a.s.isInitialized = false then []
+  else if fastMode a.s.params then []
+  else if remainingInputBlockSize a.s ≠ 0 ∧ a.availIn ≠ 0 then []
+  else if PadDue a.s then []
+  else if a.s.streamState = .processing ∧ (remainingInputBlockSize a.s = 0 ∨ op ≠ 0) then
+    [reqOf a.s 0 (decide (a.availIn = 0 ∧ op = 2)) (decide (a.availIn = 0 ∧ op = 1))]
+  else []
+
+/-- the requests issued along the first `n` steps from `a` -/
+def vlog (o : Oracle) (op : Nat) : Nat → Abs → List Req
+  | 0, _ => []
+  | n + 1, a =>
+    match vstep o op a with
+    | some a1 => vreq op a ++ vlog o op n a1
+    | none => []
+
+theorem vlog_succ {o : Oracle} {op : Nat} {a a1 : Abs} (n : Nat) (h : vstep o op a = some a1) :
+    vlog o op (n + 1) a = vreq op a ++ vlog o op n a1 := by
+  simp only [vlog, h]
+
+theorem vlog_append {o : Oracle} {op : Nat} {a b : Abs} {n : Nat} (h : VPath o op a n b) (m : Nat) :
+    vlog o op (n + m) a = vlog o op n a ++ vlog o op m b := by
+  induction h with
+  | nil _ => simp [vlog]
+  | @cons a a1 b n hs _ _ ih =>
+    have : n + 1 + m = (n + m) + 1 := by omega
+    rw [this, vlog_succ _ hs, vlog_succ _ hs, ih, List.append_assoc]
+
+theorem vreq_copy {op : Nat} {a : Abs} (hi : a.s.isInitialized = true) (hnf : ¬ fastMode a.s.params)
+    (hc : remainingInputBlockSize a.s ≠ 0 ∧ a.availIn ≠ 0) : vreq op a = [] := by
+  unfold vreq
+  rw [if_neg (by rw [hi]; simp), if_neg hnf, if_pos hc]
+
+theorem vreq_enc {op : Nat} {a : Abs} (hi : a.s.isInitialized = true) (hnf : ¬ fastMode a.s.params)
+    (hc : ¬ (remainingInputBlockSize a.s ≠ 0 ∧ a.availIn ≠ 0)) (hp : ¬ PadDue a.s)
+    (he : a.s.streamState = .processing ∧ (remainingInputBlockSize a.s = 0 ∨ op ≠ 0)) :
+    vreq op a = [reqOf a.s 0 (decide (a.availIn = 0 ∧ op = 2)) (decide (a.availIn = 0 ∧ op = 1))] := by
+  unfold vreq
+  rw [if_neg (by rw [hi]; simp), if_neg hnf, if_neg hc, if_neg hp, if_pos he]
+
 /-- **merging a PROCESS request into the request behind it** (ring-free machine).  A PROCESS request
 with input `c1`, run to its end `b1` (all input consumed), followed by a request `op2` with input
 `c2` that is itself a PROCESS or has at least one byte: the single request `op2` with input
@@ -145,7 +188,9 @@ theorem vmerge {o : Oracle} {op2 : Nat} {c2 : Bytes} :
       (op2 = 0 ∨ c2 ≠ [] ∨ NotBoundary s c1) →
       ∃ m x, VPath o op2 ⟨s, out, c1 ++ c2, (c1 ++ c2).length⟩ m x ∧
         (x = ⟨b1.s, b1.out, c2, c2.length⟩ ∨
-         (vstep o op2 ⟨b1.s, b1.out, c2, c2.length⟩ = some x ∧ ¬ FlushStep ⟨b1.s, b1.out, c2, c2.length⟩ x)) := by
+         (vstep o op2 ⟨b1.s, b1.out, c2, c2.length⟩ = some x ∧ ¬ FlushStep ⟨b1.s, b1.out, c2, c2.length⟩ x
+          ∧ vreq op2 ⟨b1.s, b1.out, c2, c2.length⟩ = []))
+        ∧ vlog o op2 m ⟨s, out, c1 ++ c2, (c1 ++ c2).length⟩ = vlog o 0 n ⟨s, out, c1, c1.length⟩ := by
   intro n
   induction n with
   | zero =>
@@ -153,11 +198,12 @@ theorem vmerge {o : Oracle} {op2 : Nat} {c2 : Bytes} :
     cases hp
     have hc1 : c1 = [] := hin
     subst hc1
-    exact ⟨0, _, .nil _, Or.inl (by simp)⟩
+    exact ⟨0, _, .nil _, Or.inl (by simp), rfl⟩
   | succ n ih =>
     intro s out c1 b1 hp hterm hin hS hsafe
     cases hp with
     | @cons _ a1 _ _ hs hnf hrest =>
+    have hs0 := hs
     have hG := hS.toGood out
     have hi' : ¬ (s.isInitialized = false) := by rw [hG.init]; simp
     have hnpd : ¬ PadDue s := fun hh => by have h1 := hh.1; rw [hS.proc] at h1; cases h1
@@ -183,6 +229,8 @@ theorem vmerge {o : Oracle} {op2 : Nat} {c2 : Bytes} :
         simp only
         rw [if_neg (by omega)]
       have hprocM : ∀ k, (core (vCopySt s k)).streamState = .processing := fun _ => hS.proc
+      have hvM : vreq op2 ⟨s, out, c1 ++ c2, (c1 ++ c2).length⟩ = [] := vreq_copy hG.init hG.nf hcm
+      have hvA : vreq 0 ⟨s, out, c1, c1.length⟩ = [] := vreq_copy (a := ⟨s, out, c1, c1.length⟩) hG.init hG.nf hc
       by_cases hr : remainingInputBlockSize s ≤ c1.length
       · -- the block fills inside `c1`: the same step in both machines
         have hk1 : min (remainingInputBlockSize s) c1.length = remainingInputBlockSize s := Nat.min_eq_left hr
@@ -195,7 +243,7 @@ theorem vmerge {o : Oracle} {op2 : Nat} {c2 : Bytes} :
         have hl1 : c1.length - r = (c1.drop r).length := by rw [List.length_drop]
         have hl2 : (c1 ++ c2).length - r = (c1.drop r ++ c2).length := by rw [← hdrop, List.length_drop]
         rw [hdrop, hl2] at hstepM
-        rw [hl1] at hrest hnf
+        rw [hl1] at hrest hnf hs0
         have hipw : s.inputPos + c1.length < two64 := by
           have hnw : s.inputPos + (c1 ++ c2).length < two64 := hG.nowrap
           rw [hlen] at hnw
@@ -236,8 +284,9 @@ theorem vmerge {o : Oracle} {op2 : Nat} {c2 : Bytes} :
             have := hS.pos.lp
             have e : s.inputPos + r - s.lastProcessedPos + (c1.length - r) = s.inputPos - s.lastProcessedPos + c1.length := by omega
             rw [e]; exact h
-        obtain ⟨m, x, hpx, hx⟩ := ih _ _ _ _ hrest hterm hin hS1 hsafe1
-        exact ⟨m + 1, x, .cons hstepM (noflush_of_processing hS.proc) hpx, hx⟩
+        obtain ⟨m, x, hpx, hx, hlog⟩ := ih _ _ _ _ hrest hterm hin hS1 hsafe1
+        refine ⟨m + 1, x, .cons hstepM (noflush_of_processing hS.proc) hpx, hx, ?_⟩
+        rw [vlog_succ _ hstepM, vlog_succ _ hs0, hlog, hvM, hvA]
       · -- `c1` ends inside the block: the PROCESS request stops there, the merged request copies on
         have hr' : c1.length < remainingInputBlockSize s := by omega
         have hk1 : min (remainingInputBlockSize s) c1.length = c1.length := Nat.min_eq_right (by omega)
@@ -262,14 +311,23 @@ theorem vmerge {o : Oracle} {op2 : Nat} {c2 : Bytes} :
           have e5 : ¬ ((core (vCopySt s c1.length)).streamState = .flushRequested) := by
             rw [hprocM]; simp
           simp only [if_neg e0, if_neg e1, if_neg e2, if_neg e3, if_neg e4, if_neg e5]
+        have hn0 : n = 0 := by
+          cases hrest with
+          | nil _ => rfl
+          | cons hs' _ _ => rw [hend] at hs'; cases hs'
         have hb1 : b1 = ⟨core (vCopySt s c1.length), out, [], 0⟩ := by
           cases hrest with
           | nil _ => rfl
           | cons hs' _ _ => rw [hend] at hs'; cases hs'
         subst hb1
+        have hlog1 : ∀ z, vstep o op2 ⟨s, out, c1 ++ c2, (c1 ++ c2).length⟩ = some z →
+            vlog o op2 1 ⟨s, out, c1 ++ c2, (c1 ++ c2).length⟩ = vlog o 0 (n + 1) ⟨s, out, c1, c1.length⟩ := by
+          intro z hz
+          rw [hn0, vlog_succ _ hz, vlog_succ _ hs0, hvM, hvA]
+          rfl
         by_cases hc2 : c2 = []
         · subst hc2
-          refine ⟨1, _, .cons hstepM (noflush_of_processing hS.proc) (.nil _), Or.inl ?_⟩
+          refine ⟨1, _, .cons hstepM (noflush_of_processing hS.proc) (.nil _), Or.inl ?_, hlog1 _ hstepM⟩
           simp [hk1, Nat.min_eq_right (Nat.le_of_lt hr')]
         · -- the second request starts with a copy, which the merged request has already done
           have hc2l : c2.length ≠ 0 := fun hh => hc2 (List.eq_nil_of_length_eq_zero hh)
@@ -285,7 +343,8 @@ theorem vmerge {o : Oracle} {op2 : Nat} {c2 : Bytes} :
             unfold vCopy
             simp only [hrbs1]
             rw [if_neg (by omega)]
-          refine ⟨1, _, .cons hstepM (noflush_of_processing hS.proc) (.nil _), Or.inr ⟨?_, noflush_of_processing hS.proc⟩⟩
+          refine ⟨1, _, .cons hstepM (noflush_of_processing hS.proc) (.nil _), Or.inr ⟨?_, noflush_of_processing hS.proc,
+            vreq_copy (a := ⟨core (vCopySt s c1.length), out, c2, c2.length⟩) hG.init hG.nf hcC⟩, hlog1 _ hstepM⟩
           rw [hstepC, vCopySt_add]
           have hmin : min (remainingInputBlockSize s) (c1 ++ c2).length = c1.length + min (remainingInputBlockSize s - c1.length) c2.length := by
             rw [hlen]; omega
@@ -371,8 +430,15 @@ theorem vmerge {o : Oracle} {op2 : Nat} {c2 : Bytes} :
             rw [q3, hlpE, hBs, Nat.sub_self, Nat.zero_add]
             rw [huB, Nat.add_mod_left] at h
             exact h
-        obtain ⟨m, x, hpx, hx⟩ := ih _ _ _ _ hrest hterm hin hS1 hsafe1
-        exact ⟨m + 1, x, .cons hstepM (noflush_of_processing hS.proc) hpx, hx⟩
+        obtain ⟨m, x, hpx, hx, hlog⟩ := ih _ _ _ _ hrest hterm hin hS1 hsafe1
+        refine ⟨m + 1, x, .cons hstepM (noflush_of_processing hS.proc) hpx, hx, ?_⟩
+        have hvM : vreq op2 ⟨s, out, c1 ++ c2, (c1 ++ c2).length⟩ = [reqOf s 0 false false] := by
+          rw [vreq_enc (a := ⟨s, out, c1 ++ c2, (c1 ++ c2).length⟩) hG.init hG.nf hncM hnpd heM]
+          simp only [hflM.1, hflM.2]
+        have hvA : vreq 0 ⟨s, out, c1, c1.length⟩ = [reqOf s 0 false false] := by
+          rw [vreq_enc (a := ⟨s, out, c1, c1.length⟩) hG.init hG.nf hc hnpd he]
+          simp only [(hfl c1.length).1, (hfl c1.length).2]
+        rw [vlog_succ _ hstepM, vlog_succ _ hs0, hlog, hvM, hvA]
       · rw [if_neg he] at hs
         have : ¬ (s.streamState = .flushRequested) := by rw [hS.proc]; simp
         rw [if_neg this] at hs
